@@ -100,7 +100,7 @@ class Ctx:
         self.specdir = os.path.join(self.scratch, "spec")
         shutil.copytree(os.path.join(VERIF, "spec"), self.specdir)
         self.replay_dir = os.path.join(VERIF, "replays", pid)
-        self._harness = None
+        self._harness = {}
         self._bins = {}
         self.violations = []      # (what, replay_path)
         self.known_seen = []
@@ -122,19 +122,28 @@ class Ctx:
             env.update(extra)
         return env
 
-    def harness(self):
-        if self._harness:
-            return self._harness
+    def harness(self, name="harness"):
+        """Build harness/cmd/<name> against the repository working tree (REPO) with -tags verif."""
+        if name in self._harness:
+            return self._harness[name]
         hdir = os.path.join(VERIF, "harness")
+        if REPO != "/repo":
+            # checks can be pointed at a scratch worktree (VERIF_REPO=...) for mutant testing
+            cp = os.path.join(self.scratch, "hsrc")
+            if not os.path.exists(cp):
+                shutil.copytree(hdir, cp)
+                gm = open(os.path.join(cp, "go.mod")).read().replace("=> /repo", "=> " + REPO)
+                open(os.path.join(cp, "go.mod"), "w").write(gm)
+            hdir = cp
         shutil.copy(os.path.join(REPO, "go.sum"), os.path.join(hdir, "go.sum"))
-        out = os.path.join(self.scratch, "harness")
+        out = os.path.join(self.scratch, "hbin-" + name)
         t = time.time()
-        p = subprocess.run(["go", "build", "-tags", "verif", "-o", out, "./cmd/harness"], cwd=hdir,
+        p = subprocess.run(["go", "build", "-tags", "verif", "-o", out, "./cmd/" + name], cwd=hdir,
                            env=self.goenv(), capture_output=True, text=True)
         if p.returncode != 0:
             raise Inconclusive("harness build failed:\n" + p.stdout + p.stderr)
-        log("harness built in %.1fs" % (time.time() - t))
-        self._harness = out
+        log("harness %s built in %.1fs" % (name, time.time() - t))
+        self._harness[name] = out
         return out
 
     def repo_bin(self, app, tags="verif"):
@@ -153,8 +162,8 @@ class Ctx:
         self._bins[key] = out
         return out
 
-    def run_harness(self, args, timeout=600, env=None, cwd=None):
-        h = self.harness()
+    def run_harness(self, args, timeout=600, env=None, cwd=None, name="harness"):
+        h = self.harness(name)
         try:
             p = subprocess.run([h] + [str(a) for a in args], cwd=cwd or self.scratch, env=self.goenv(env),
                                capture_output=True, text=True, timeout=timeout)
